@@ -2,6 +2,7 @@ import Poly.Util.Proto
 import Poly.Util.Sha256
 import Poly.Model.KeyShape
 import Poly.Model.CCMVote
+import Poly.Model.CCMGenesis
 import Poly.Generated.KeyShapes
 /- Driver for the cross-chain-manager families. `drv_ccm <family>` reads op lines on stdin. -/
 open Poly
@@ -114,8 +115,51 @@ def step (d : DState) (toks : List String) : DState × String :=
 
 end CcmDrv
 
+namespace GenesisDrv
+open Poly.Model.Genesis
+
+structure DState where
+  s : GState
+  reg : List (Nat × Nat)
+  height : Nat
+  mainNet : Bool
+  nCons : Nat
+
+def init : DState := ⟨[], [], 100, true, 0⟩
+
+def field (toks : List String) (k : String) : String :=
+  match toks.find? (fun t => t.startsWith (k ++ "=")) with
+  | some t => CcmDrv.val t
+  | none => ""
+
+def showG : GOutcome → String
+  | .ok => "ok"
+  | .reject c => "reject:" ++ c
+
+def step (d : DState) (toks : List String) : DState × String :=
+  match toks with
+  | ["peers", a, _] => ({ d with nCons := Proto.natOf a }, "ok")
+  | ["height", h] => ({ d with height := Proto.natOf h }, "ok")
+  | ["net", n] => ({ d with mainNet := n == "main" }, "ok")
+  | ["reg", c, name] =>
+    match routers.find? (·.name == name) with
+    | some spec => ({ d with reg := (Proto.natOf c, spec.router) :: d.reg.filter (·.1 != Proto.natOf c) }, "ok")
+    | none => (d, "bad-op")
+  | "install" :: rest =>
+    let chain := Proto.natOf (field rest "chain")
+    let g := field rest "g"
+    let witness := (CcmDrv.signers d.nCons (field rest "s")).contains (CcmDrv.sid d.nCons "op")
+    let genesis : Option Nat := if g == "bad" then none else some (Proto.natOf g)
+    let (o, s') := entrance routers (fun c => d.reg.lookup c) d.mainNet d.height d.s chain witness genesis
+    ({ d with s := s' }, s!"{showG o} changed={if s' == d.s then 0 else 1}")
+  | "sync" :: _ => (d, "reject changed=0")
+  | _ => (d, "bad-op")
+
+end GenesisDrv
+
 def main (args : List String) : IO Unit :=
   match args with
   | ["keys"] => Proto.run ([] : Poly.Model.KeyShape.Store) KeysDrv.step
   | ["ccm"] => Proto.run CcmDrv.init CcmDrv.step
+  | ["genesis"] => Proto.run GenesisDrv.init GenesisDrv.step
   | _ => IO.eprintln "usage: drv_ccm <family>"
